@@ -264,12 +264,13 @@ func (x *Exec) returnAsserts(fr *Frame, st *State, ret *ssa.Return) {
 	}
 	n := len(ret.Results)
 	success := TTrue
+	failure := TFalse // "callsite failure assert e": e must hold at every return that reports an error
 	if n > 0 {
 		last := ret.Results[n-1]
 		if types.Identical(last.Type(), types.Universe.Lookup("error").Type()) {
 			if c, ok := last.(*ssa.Const); ok {
 				if !c.IsNil() {
-					return
+					success, failure = TFalse, TTrue
 				}
 			} else {
 				// (functions with defers return their results through temporaries)
@@ -278,6 +279,7 @@ func (x *Exec) returnAsserts(fr *Frame, st *State, ret *ssa.Return) {
 					return
 				}
 				success = Eq(lv.X, nilRef)
+				failure = Not(success)
 			}
 		}
 	}
@@ -285,6 +287,35 @@ func (x *Exec) returnAsserts(fr *Frame, st *State, ret *ssa.Return) {
 	idx := len(blk.Instrs) - 1
 	for _, cs := range fr.fc.CallSites {
 		if cs.IsUse {
+			continue
+		}
+		if cs.Callee == "failure" || strings.HasPrefix(cs.Callee, "failure#") {
+			if failure == TFalse {
+				continue
+			}
+			if strings.HasPrefix(cs.Callee, "failure#") {
+				k, _ := strconv.Atoi(strings.TrimPrefix(cs.Callee, "failure#"))
+				if k <= 0 || returnOrdinal(fr.fn, ret) != k {
+					continue
+				}
+			}
+			env := &CEnv{x: x, fr: fr, st: st, old: &fr.entry, pkg: fr.pkg, mode: x.m(), vars: map[string]Value{}, ghostsOK: fr == fr.top, goal: true}
+			env.lookup = func(n string) (Value, bool) { return x.lookupLocalAt(fr, blk, idx, st, n) }
+			tag := cs.Tag
+			if tag == "" {
+				tag = "failure"
+			}
+			g, evalErr := safeEvalBool(env, cs.Clause.Expr)
+			if evalErr != "" {
+				o := x.vc.oblige("callsite."+tag, Implies(And(st.Reach, failure), TFalse), x.posOf(fr.fn, ret.Pos()), fmt.Sprintf("at a failing return the clause cannot be evaluated (%s): %s", evalErr, cs.Clause.Src))
+				o.Clause = cs.Clause.Src
+				continue
+			}
+			o := x.vc.oblige("callsite."+tag, Implies(And(st.Reach, failure), g), x.posOf(fr.fn, ret.Pos()), fmt.Sprintf("at a failing return: %s", cs.Clause.Src))
+			o.Clause = cs.Clause.Src
+			continue
+		}
+		if success == TFalse {
 			continue
 		}
 		if cs.Callee != "return" {
